@@ -31,6 +31,8 @@ ASSUMPTIONS = [
 
 KINDS = ["rhf", "uhf", "ghf", "noci", "cisd", "ucisd", "multislater"]
 SHAPES = {"rhf": [(3, (2, 2))], "uhf": [(3, (2, 1))], "ghf": [(3, (2, 1))], "noci": [(3, (2, 1))], "cisd": [(3, (1, 1))], "ucisd": [(3, (2, 1))], "multislater": [(3, (2, 1))]}
+# closed-shell variants for the kinds that accept both walker containers (restricted array / unrestricted list): measurement sub-check only
+CLOSED_VARIANT = {"uhf": (3, (1, 1)), "multislater": (3, (1, 1)), "ucisd": (3, (1, 1))}
 
 
 @st.composite
@@ -38,6 +40,8 @@ def batch_case(draw, tier, shard=0, nshards=1, with_fields=False):
     kind = draw(st.sampled_from(measure.kinds_for_shard(KINDS if not with_fields else ["rhf", "uhf", "noci", "cisd", "cpmc"], shard, nshards)))
     lk = "uhf" if kind == "cpmc" else kind
     norb, nelec = SHAPES[lk][0]
+    if not with_fields and lk in CLOSED_VARIANT and draw(st.integers(0, 2)) == 0:
+        norb, nelec = CLOSED_VARIANT[lk]
     params = draw(gens.trial_params(lk, norb, nelec, True if lk in ("rhf", "uhf", "ghf", "noci") else None))
     nw = draw(st.sampled_from([2, 4, 6, 3]))
     restricted = lk in ("rhf", "cisd")
@@ -108,6 +112,24 @@ def meas_body(ctx, case):
         ctx.fail(f"measure:raised-{type(e).__name__}:{kind}", case, f"{type(e).__name__}: {str(e)[:300]}")
         return
     names = ["overlap", "force-bias", "energy"]
+    # closed shell, spin-independent one-body term, equal spin blocks: the restricted array and the unrestricted list [W, W] are two
+    # containers for the same walkers and must give the same measurements
+    h1_ = np.asarray(case["ham"]["h1"], float)
+    if (not restricted) and nelec[0] == nelec[1] and np.array_equal(h1_[0], h1_[1]):
+        try:
+            nb = sorted({nb1, nb2})[0]
+            trial, wd, extra = gens.build_trial(kind, norb, nelec, case["params"], n_batch=nb)
+            H, hd = gens.build_ham(norb, case["ham"], trial, wd)
+            wl, wa = [jnp.asarray(ups), jnp.asarray(ups)], jnp.asarray(ups)
+            ml = [np.asarray(trial.calc_overlap(wl, wd)), np.asarray(trial.calc_force_bias(wl, hd, wd)), np.asarray(trial.calc_energy(wl, hd, wd))]
+            ma = [np.asarray(trial.calc_overlap(wa, wd)), np.asarray(trial.calc_force_bias(wa, hd, wd)), np.asarray(trial.calc_energy(wa, hd, wd))]
+        except Exception as e:
+            ctx.fail(f"measure:container:raised-{type(e).__name__}:{kind}", case, f"{type(e).__name__}: {str(e)[:300]}")
+            return
+        if all(np.all(np.isfinite(x)) for x in ml + ma):
+            ctx.count("measure:container-pair-compared:" + kind)
+            for nm, x, y in zip(["overlap", "force-bias", "energy"], ma, ml):
+                ctx.check_close(f"measure:container-dependence:{kind}:{nm}", case, f"{nm} restricted array - unrestricted list of equal spin blocks [{kind}]", x, y, max(_meas_tol(nm, kind), 1e-10), float(np.max(np.abs(y))) + 1e-300)
     for nb, (a, b) in outs.items():
         for nm, x, y in zip(names, a, b):
             if not np.all(np.isfinite(x)):
